@@ -226,6 +226,23 @@ def check(case, ctx):
         except Exception as e:  # noqa
             raise Violation(f"wrong-exception:{type(e).__name__}",
                             f"{before_r}.{name}{_r(tuple(args))} raised {e!r} (not DeclarationError)")
+        if len(args) == 1 and name != "__call__":
+            # one argument, passed by keyword instead of by position: same outcome
+            import inspect
+            try:
+                pname = next(iter(inspect.signature(getattr(s, name)).parameters))
+                try:
+                    kw_out = getattr(s, name)(**{pname: args[0]})
+                except DeclarationError:
+                    kw_out = None
+            except Violation:
+                raise
+            except Exception as e:  # noqa
+                raise Violation(f"wrong-exception:{type(e).__name__}",
+                                f"{before_r}.{name}({pname}={_r(args[0])}) raised {e!r} (not DeclarationError)")
+            if (kw_out is None) != (out is None) or (out is not None and isinstance(out, Schema) and canon.canon(kw_out) != canon.canon(out)):
+                raise Violation("keyword-call-differs", f"{before_r}.{name}({_r(args[0])}) and .{name}({pname}={_r(args[0])}) differ: "
+                                                        f"{_r(out)} / {_r(kw_out)}")
         if canon.canon(s) != before_c or _r(s) != before_r:
             raise Violation("receiver-changed", f"{before_r}.{name}{_r(tuple(args))} changed its receiver "
                                                 f"to {s!r}")
